@@ -65,6 +65,6 @@ def to_model(data_file: typing.IO, config: typing.Optional[STLReaderConfiguratio
       LOGGER.error("Bad TTI block")
       raise
     
-    progress_callback(i/m.get_tti_count())
+    progress_callback(i/m.get_tti_count() if m.get_tti_count() > 0 else 1)
 
   return m.get_document()
